@@ -94,13 +94,18 @@ func contract_Decoder_parseNext(d *Decoder) (tok Token, err error) {
 }
 
 // Read returns a token only if it may follow in the grammar, and keeps the container stack in
-// step with the tokens it returns.
+// step with the tokens it returns: a token returned directly must be allowed after the previous
+// token (site assertion at the final return); a comma is consumed only where a comma is allowed,
+// and then the token after it is delivered by a nested Read from the state (comma, same container)
+// (call-site assertion); the postcondition summarises both cases for callers.
 //
 // @ props C21
 // @ mode bv
 // @ split
 // @ nopanic
 // @ inline isValueNext
+// @ site return tok, nil: tok.kind == EOF || specNextOK(old(d.lastToken.kind), old(specTop(d.openStack)), tok.kind)
+// @ callsite d.Read: d.lastToken.kind == comma && specNextOK(old(d.lastToken.kind), old(specTop(d.openStack)), comma) && specTop(d.openStack) == old(specTop(d.openStack))
 func contract_Decoder_Read(d *Decoder) (tok Token, err error) {
 	requires(d != nil)
 	domain(d.lastCall != peekCall) // a pending Peek result is handed out unchanged
